@@ -151,6 +151,10 @@ pub struct Knobs {
     /// watch.heartbeat_interval_ms (Progress events; 0 = off)
     #[serde(default = "d_watch_hb")]
     pub watch_heartbeat_ms: u64,
+    /// membership.promotion.stale_learner_threshold (0 = keep d-engine's default): a learner that stays ready but
+    /// unpromoted this long is removed by the leader through a BatchRemove entry
+    #[serde(default)]
+    pub stale_learner_ms: u64,
 }
 fn d_watch_hb() -> u64 {
     30_000
@@ -238,6 +242,7 @@ fn gen_knobs(r: &mut Rng, scenario: &str) -> Knobs {
         watch_queue: 10240,
         watch_buf: 256,
         watch_heartbeat_ms: 30_000,
+        stale_learner_ms: 0,
     };
     match scenario {
         "snapshot" => {
@@ -258,6 +263,10 @@ fn gen_knobs(r: &mut Rng, scenario: &str) -> Knobs {
         }
         "deadline" => {
             k.general_timeout_ms = *r.pick(&[50u64, 100, 200]);
+        }
+        "membership" => {
+            // removals happen too: a ready learner that cannot be promoted (even voter count) is removed
+            k.stale_learner_ms = *r.pick(&[0u64, 1500, 4000]);
         }
         "watch" => {
             // small queues so that both overflow kinds (broadcast lag, watcher buffer) occur; large apply batches
@@ -373,7 +382,9 @@ fn gen_faults(r: &mut Rng, scenario: &str, horizon: u64, n_voters: u32, masked: 
         let roll = r.below(100);
         let item = match scenario {
             "election" => match roll {
-                0..=29 => Fault::Partition { at, dur: r.range(200, 4000), side: vec![NodeSel::Leader] },
+                0..=21 => Fault::Partition { at, dur: r.range(200, 4000), side: vec![NodeSel::Leader] },
+                // split the cluster in two groups (an exact half for even voter counts)
+                22..=29 => Fault::Partition { at, dur: r.range(500, 5000), side: vec![NodeSel::Leader, sel_follower(r)] },
                 30..=39 => Fault::CrashOnGrant { at: if r.chance(1, 3) { 0 } else { at }, nth: r.range(1, 4) as u32, power_loss: r.chance(1, 2), down_ms: r.range(10, 400) },
                 40..=54 => Fault::Crash { at, node: sel_any(r), power_loss: r.chance(1, 2), down_ms: r.range(100, 3000) },
                 55..=69 => Fault::OneWay { at, dur: r.range(200, 3000), node: NodeSel::Leader, outbound: r.chance(1, 2) },
@@ -489,7 +500,8 @@ pub fn gen_plan(seed: u64, scenario: &str, masked: &[String]) -> Plan {
         "membership" => *r.pick(&[1u32, 3, 3]),
         "routing" => 3,
         "reelect" => *r.pick(&[3u32, 3, 5]),
-        _ => *r.pick(&[1u32, 3, 3, 3, 5]),
+        // even voter counts are legal configurations too (majority of 4 is 3, of 2 is 2)
+        _ => *r.pick(&[1u32, 2, 3, 3, 3, 4, 5]),
     };
     let voters: Vec<u32> = (1..=n_voters).collect();
     let mut learners = Vec::new();
